@@ -282,8 +282,12 @@ class Driver:
             try:
                 import warnings
                 with warnings.catch_warnings():
-                    warnings.simplefilter("ignore")
+                    # with warnings turned into errors (python -W error) the "generator closed early" UserWarning is
+                    # raised out of close(): the clean-up must have happened all the same
+                    warnings.simplefilter("error" if self.case.get("warn_error") else "ignore")
                     self.gen.close()
+                self._post(["stop"])
+            except UserWarning:
                 self._post(["stop"])
             except BaseException as e:  # noqa
                 self._post(self._exc_obs(e))
@@ -297,17 +301,22 @@ class Driver:
             def go():
                 try:
                     with warnings.catch_warnings():
-                        warnings.simplefilter("ignore")
-                        self.gen.close()
-                    box.append(["stop"])
+                        # the filter is process wide: keep it until the detached clean-up thread is done, so that
+                        # what that thread sees does not depend on timing
+                        warnings.simplefilter("error" if self.case.get("warn_error") else "ignore")
+                        try:
+                            self.gen.close()
+                            box.append(["stop"])
+                        except UserWarning:
+                            box.append(["stop"])
+                        for th in threading.enumerate():
+                            if th.name == "GeneratorExitThread":
+                                th.join(WAIT_STEP)
                 except BaseException as e:  # noqa
                     box.append(self._exc_obs(e))
             t = threading.Thread(target=go, daemon=True)
             t.start()
-            t.join(WAIT_STEP)
-            for th in threading.enumerate():
-                if th.name == "GeneratorExitThread":
-                    th.join(WAIT_STEP)
+            t.join(2 * WAIT_STEP)
             if not box:
                 self.anomalies.append("close() from another thread did not return")
                 box.append(["hang"])
